@@ -61,8 +61,24 @@ def run(ck):
     for c in ((), (b'cron',), (b'a', b'cron')):
         jobs.append((c, b'cron', 1))
 
+    # fabricated /proc (hide == 2): ancestries with process ids of up to 7 digits (stat lines no process of this sandbox can have)
+    FN = [b'a', b'fifteen_bytes_n', b'cron', b'(x)', b'', b'crond', b'irq/9-a']
+    PIDPAT = {'small': (7, 42, 1), 'seven_digits': (4194301, 1000001, 1), 'mixed': (99999, 100000, 1), 'max': (4194303, 4194302, 4194301)}
+    for depth in (1, 2, 3):
+        for c in itertools.product(FN, repeat=depth):
+            if depth == 3 and (c[0] not in (b'fifteen_bytes_n', b'a') or c[1] not in (b'fifteen_bytes_n', b'cron')):
+                continue
+            for pn, pp in PIDPAT.items():
+                jobs.append((c, b'selfproc', (2, pn, pp)))
+
     def one(j):
         c, selfname, hide = j
+        if isinstance(hide, tuple):
+            _, pn, pp = hide
+            w = os.path.join(ck.workdir, 'f%d' % (hash(j) % 64))
+            os.makedirs(w, exist_ok=True)
+            spec = ','.join('%s:%d' % (n.hex(), pp[i] if i < len(pp) else 1) for i, n in enumerate(c))
+            return sh([h, lf, '2', selfname.hex() or '-'], env=dict(H.san_env(w), VERIF_FAKEPROC=spec), cwd=w, timeout=300)
         w = os.path.join(ck.workdir, 'w%d' % (hash(j) % 64))
         os.makedirs(w, exist_ok=True)
         r = sh([h, lf, str(hide), selfname.hex() or '-'] + [n.hex() for n in c], env=H.san_env(w), cwd=w, timeout=300)
@@ -74,7 +90,7 @@ def run(ck):
         c, selfname, hide = j
         out = r.stdout.decode('latin-1')
         done = [l for l in out.splitlines() if l.startswith('DONE')]
-        tag = 'chain=%s:self=%s:hideproc=%d' % ('/'.join(x.decode() for x in c), selfname.decode(), hide)
+        tag = 'chain=%s:self=%s:hideproc=%d' % ('/'.join(x.decode() for x in c), selfname.decode(), hide) if not isinstance(hide, tuple) else 'fabricated_proc:pids=%s:chain=%s' % (hide[1], '/'.join(x.decode('latin-1') for x in c))
         if not done or r.returncode != 0:
             ck.violation('C15:abort:%s' % tag, {'rc': r.returncode, 'stdout': out[-400:], 'stderr': r.stderr.decode('latin-1')[-400:]})
             continue
@@ -87,7 +103,7 @@ def run(ck):
         for l in out.splitlines():
             if l.startswith('MISMATCH') and 'got=' in l and 'list=' in l:
                 ck.violation('C15:%s:%s' % (l.split('got=')[1].replace(' ', '_'), tag) + ':' + l.split('list=')[1].split(' got=')[0][:60],
-                             {'chain': [x.decode() for x in c], 'own_name': selfname.decode(), 'proc_hidden': bool(hide), 'line': l, 'ancestors': [a for a in out.splitlines() if a.startswith('ANC')][:1]})
+                             {'chain': [x.decode('latin-1') for x in c], 'own_name': selfname.decode(), 'proc_hidden': hide if not isinstance(hide, tuple) else 'fabricated %s' % (hide[2],), 'line': l, 'ancestors': [a for a in out.splitlines() if a.startswith('ANC')][:1]})
         if len(samples) < 4 and len(outcomes) % 211 == 5:
             samples.append({'chain': [x.decode() for x in c], 'own_name': selfname.decode(), 'lists': n})
     ck.coverage(states=len(outcomes), transitions=evals, traces_validated_against_impl=evals, evaluations=evals, distinct_nontrivial=len(outcomes), chains=len(jobs), lists_per_chain=len(lists),
